@@ -144,21 +144,22 @@ func init() {
 		// 5GSM part and the header), then encoded: the octets are those of a fresh Message decoded from <b2>
 		b1, b2 := aHex(a[0]), aHex(a[1])
 		m, m2, m3 := nas.NewMessage(), nas.NewMessage(), nas.NewMessage()
+		// whether <b1> / <b2> decode at all is nmpdec's business: nothing to compare when they do not
 		if err := m2.PlainNasDecode(&b2); err != nil {
-			return "err"
+			return "ok same"
 		}
 		want, err := m2.PlainNasEncode()
 		if err != nil {
-			return "err"
+			return "ok same"
 		}
 		want = append([]byte{}, want...)
 		b3 := append([]byte{}, b2...)
 		if err := m3.PlainNasDecode(&b3); err != nil {
-			return "err"
+			return "ok same"
 		}
 		// the decode into m is the LAST decode before m is given other contents and encoded
 		if err := m.PlainNasDecode(&b1); err != nil {
-			return "err"
+			return "ok same"
 		}
 		m.SecurityHeader, m.GmmMessage, m.GsmMessage = m3.SecurityHeader, m3.GmmMessage, m3.GsmMessage
 		got, err := m.PlainNasEncode()
@@ -402,6 +403,43 @@ type nasGen struct {
 
 func (g nasGen) pick(xs ...int) int { return xs[g.e.rng.Intn(len(xs))] }
 
+// body: n content octets — random three times in four; otherwise contents with STRUCTURE of their own, which a codec that looks
+// inside opaque contents would trip over: all ones (reserved values such as SD ffffff), all zeros, a value followed by all
+// ones, an inner length field (octets 2..3, big endian, as in an EAP packet) that is shorter than the contents with a zero
+// tail, a first octet that equals the number of octets after it
+func (g nasGen) body(n int) []byte {
+	b := g.e.bytes(n)
+	rng := g.e.rng
+	if n == 0 || rng.Intn(4) != 0 {
+		return b
+	}
+	switch rng.Intn(5) {
+	case 0:
+		for i := range b {
+			b[i] = 0xff
+		}
+	case 1:
+		for i := range b {
+			b[i] = 0
+		}
+	case 2:
+		for i := 1; i < n; i++ {
+			b[i] = 0xff
+		}
+	case 3:
+		if n > 5 {
+			k := 4 + rng.Intn(n-4)
+			b[2], b[3] = byte(k>>8), byte(k)
+			for i := k; i < n; i++ {
+				b[i] = 0
+			}
+		}
+	case 4:
+		b[0] = byte(n - 1)
+	}
+	return b
+}
+
 // wfVal: a well-formed value for field i of mi (MsgWF of Model/NasWF.lean); big = allow the extreme lengths
 func (g nasGen) wfVal(mi *nasMsgInfo, i int, big bool) string {
 	sh := mi.shape[i]
@@ -433,7 +471,7 @@ func (g nasGen) wfVal(mi *nasMsgInfo, i int, big bool) string {
 			}
 		}
 	case "arr":
-		data = g.e.bytes(sh.n)
+		data = g.body(sh.n)
 		if sh.lenW > 0 {
 			len_ = g.pick(0, 1, sh.n, sh.n, rng.Intn(sh.n+1))
 			if !opt { // mandatory `Len` + whole array: any Len round-trips
@@ -459,7 +497,7 @@ func (g nasGen) wfVal(mi *nasMsgInfo, i int, big bool) string {
 		if len_ > maxLen {
 			len_ = maxLen
 		}
-		data = g.e.bytes(len_)
+		data = g.body(len_)
 	}
 	return fmt.Sprintf("%d.%d.%s", iei, len_, hx(data))
 }
